@@ -786,8 +786,9 @@ def side_streams(ck, drv):
             for typ in (0, 1):
                 size = rng.choice([4, 8, 12, 255, 256, 260, 516, 4092])
                 files.append((True, bytes([size & 0xFF, (typ << 4) | (size >> 8), (iface << 4) | inst, 0xC0]) + bytes(rng.getrandbits(8) for _ in range(size - 4))))
+    nvalid = len(files)
     for _ in range(40):
-        good = files[rng.randrange(len(files))][1]
+        good = files[rng.randrange(nvalid)][1]
         bad = bytearray(good)
         r = rng.randrange(5)
         if r == 0:
